@@ -4,7 +4,32 @@ from ..cfg import cfg_of
 from ..dataflow import du_of, place_key
 
 
-def tests_dominating(fn, block):
+def bool_sources(du, l, seen=None, depth=0):
+    """constant definitions reaching bool local l through copies: list of (block, True|False|None)"""
+    if seen is None:
+        seen = set()
+    if l in seen or depth > 8:
+        return []
+    seen.add(l)
+    out = []
+    for d in du.defs.get(l, []):
+        if d[0] != "assign":
+            out.append((d[1], None)); continue
+        rv = d[3]
+        if rv["k"] == "use":
+            o = rv["ops"][0]
+            if o.get("k") == "const" and isinstance(o.get("v"), bool):
+                out.append((d[1], o["v"]))
+            elif o.get("k") in ("copy", "move") and not o["p"]:
+                out += bool_sources(du, o["l"], seen, depth + 1)
+            else:
+                out.append((d[1], None))
+        else:
+            out.append((d[1], None))
+    return out
+
+
+def tests_dominating(fn, block, _depth=0):
     """[(callee, truth, value_expr, line)] for every boolean switch edge that dominates `block`:
     the call that produced the tested boolean (through Not) and the truth value the edge establishes for it"""
     cfg = cfg_of(fn)
@@ -17,6 +42,29 @@ def tests_dominating(fn, block):
             continue
         v = du.val_operand(st["discr"])
         v, neg = strip_not(du, v)
+        if v[0] == "place" and not v[1][1] and _depth < 2:
+            # the flag of an `a || b` / `a && b` chain: on the edge where it has the value that only ONE kind of assignment
+            # produces, everything that dominates all of those assignments is known (`if x.is_none() || y.is_none() { return }`)
+            src = bool_sources(du, v[1][0])
+            if src and all(val_ is not None for _, val_ in src):
+                for val, tb in st["targets"]:
+                    if tb == st["otherwise"]:
+                        continue
+                    for edge, flag_val in (((sb, tb), bool(val) != neg), ((sb, st["otherwise"]), (not bool(val)) != neg)):
+                        if not cfg.edge_dominates(edge, block):
+                            continue
+                        other = (sb, st["otherwise"]) if edge == (sb, tb) else (sb, tb)
+                        if cfg.edge_dominates(other, block):
+                            continue
+                        defs = [b_ for b_, val_ in src if val_ == flag_val]
+                        if not defs:
+                            continue
+                        common = None
+                        for b_ in defs:
+                            ts = {(c_, tr_, repr(v_)): (c_, tr_, v_, ln_) for c_, tr_, v_, ln_ in tests_dominating(fn, b_, _depth + 1)}
+                            common = ts if common is None else {k_: x_ for k_, x_ in common.items() if k_ in ts}
+                        out.extend((common or {}).values())
+            continue
         if v[0] != "call":
             continue
         for val, tb in st["targets"]:
